@@ -58,7 +58,9 @@ func (r *Report) Add(rule, construct string, v Verdict, pos, detail string) {
 	r.Obls = append(r.Obls, Obligation{Rule: rule, Construct: construct, Verdict: v, Pos: pos, Detail: detail})
 }
 
-func (r *Report) OK(rule, construct, pos, detail string) { r.Add(rule, construct, Discharged, pos, detail) }
+func (r *Report) OK(rule, construct, pos, detail string) {
+	r.Add(rule, construct, Discharged, pos, detail)
+}
 func (r *Report) Bad(rule, construct, pos, detail string) {
 	r.Add(rule, construct, Violated, pos, detail)
 }
